@@ -259,6 +259,8 @@ func (c *Compiler) getDeviations(mod string) []string {
 			devs = append(devs, d)
 		}
 	}
+	// (the order of a map changes from run to run)
+	sort.Strings(devs)
 	return devs
 }
 
@@ -547,6 +549,8 @@ func (c *Compiler) getEnabledFeaturesForPrefix(name string) []string {
 				strings.TrimPrefix(featName, prefix))
 		}
 	}
+	// (the order of a map changes from run to run)
+	sort.Strings(features)
 	return features
 }
 
